@@ -293,4 +293,12 @@ example : ∀ f cls, (f, VFile.bad cls) ∈ exVFS → cls ≠ "circular" := by
 
 example (c : Pipeline.Cfg) : (loadedFS c exVFS).map Prod.fst = ["sub/base.yaml", "gone.yaml"] := rfl
 
+/-- a file that cannot be read offers no services -/
+example (c : Pipeline.Cfg) : fileServices (loadedFS c exVFS) "gone.yaml" = none := by
+  simp [fileServices, loadedFS, exVFS, fsLookup, loadVFile]
+
+/-- `hmain` is satisfiable: the main file's own name is not a reference of this file system -/
+example (c : Pipeline.Cfg) : fileServices (loadedFS c exVFS) "compose.yaml" = none := by
+  simp [fileServices, loadedFS, exVFS, fsLookup, loadVFile]
+
 end CV.Extends
